@@ -1033,7 +1033,7 @@ func hoVoucherRows(e *env.Env) int {
 // doubleDone: sessions A and B of one device run up to the last service-info exchange; A completes (the voucher is
 // replaced), then B sends its Done. B's replacement must not happen (its old voucher is gone) and must leave nothing behind:
 // the store holds exactly what it held after A.
-func (w *hoWorld) doubleDone(cf hoCfg) (res hoDoubleRes) {
+func (w *hoWorld) doubleDone(cf hoCfg, interleaved bool) (res hoDoubleRes) {
 	ctx, cancel := context.WithTimeout(context.Background(), 60*time.Second)
 	defer cancel()
 	pr, err := w.pair(cf.Spec)
@@ -1073,8 +1073,15 @@ func (w *hoWorld) doubleDone(cf hoCfg) (res hoDoubleRes) {
 			}
 		}
 	}
-	res.first = do(0, raw.Step{Msg: 70}).RespType
-	res.second = do(1, raw.Step{Msg: 70}).RespType
+	if interleaved {
+		// B's Done has looked its voucher up and is about to replace it when A's Done runs to completion
+		e.BeforeReplace = func() { res.first = do(0, raw.Step{Msg: 70}).RespType }
+		res.second = do(1, raw.Step{Msg: 70}).RespType
+		e.BeforeReplace = nil
+	} else {
+		res.first = do(0, raw.Step{Msg: 70}).RespType
+		res.second = do(1, raw.Step{Msg: 70}).RespType
+	}
 	res.replaced, _ = hoReplaces(e.Journal.Since(j0))
 	res.rows1 = hoVoucherRows(e)
 	_, err = e.DB.Voucher(ctx, d.Cred.GUID)
@@ -1262,7 +1269,7 @@ func registerHandoverKinds(c *core.Ctx) {
 	c.Register(&core.Kind{Name: "handover.doubledone", NoModel: true, Eval: func(p core.Params) (string, string) {
 		w, done := hoWorldFor()
 		defer done()
-		lastHoDouble = w.doubleDone(hoCfgOf(p))
+		lastHoDouble = w.doubleDone(hoCfgOf(p), p["interleaved"] == "1")
 		r := lastHoDouble
 		if r.harness != "" {
 			return "", "err-harness " + r.harness
@@ -1534,17 +1541,19 @@ func RunC03(c *core.Ctx) {
 			}
 		}
 		if !cf.Reuse {
-			p := cf.params()
-			o := c.Do("handover.doubledone", p, "two-sessions-reach-done")
-			if r := lastHoDouble; r.harness != "" || o.Timeout {
-				c.Fail("harness:double-done", fmt.Sprintf("%s: %s", cf, o.Impl), "handover.doubledone", p, o)
-			} else {
-				c.Count("double_done", fmt.Sprintf("first=%d second=%d replaced=%d rows %d->%d", r.first, r.second, r.replaced, r.rows0, r.rows1))
-				if r.first != 71 {
-					c.Fail("harness:double-done", fmt.Sprintf("%s: the first Done was answered with %d", cf, r.first), "handover.doubledone", p, o)
-				} else if r.rows1 != r.rows0 || !r.oldGone || (r.second == 71) != (r.replaced == 2) {
-					c.Fail("store-not-as-after-one-handover", fmt.Sprintf("%s: two sessions reached Done (answers %d, %d): %d replacements recorded, voucher rows %d -> %d, old voucher gone=%v",
-						cf, r.first, r.second, r.replaced, r.rows0, r.rows1, r.oldGone), "handover.doubledone", p, o)
+			for _, il := range []string{"0", "1"} {
+				p := hoWith(cf.params(), "interleaved", il)
+				o := c.Do("handover.doubledone", p, "two-sessions-reach-done")
+				if r := lastHoDouble; r.harness != "" || o.Timeout {
+					c.Fail("harness:double-done", fmt.Sprintf("%s: %s", cf, o.Impl), "handover.doubledone", p, o)
+				} else {
+					c.Count("double_done", fmt.Sprintf("first=%d second=%d replaced=%d rows %d->%d", r.first, r.second, r.replaced, r.rows0, r.rows1))
+					if r.first != 71 {
+						c.Fail("harness:double-done", fmt.Sprintf("%s: the first Done was answered with %d", cf, r.first), "handover.doubledone", p, o)
+					} else if r.rows1 != r.rows0 || !r.oldGone || (r.second == 71) != (r.replaced == 2) {
+						c.Fail("store-not-as-after-one-handover", fmt.Sprintf("%s: two sessions reached Done (answers %d, %d): %d replacements recorded, voucher rows %d -> %d, old voucher gone=%v",
+							cf, r.first, r.second, r.replaced, r.rows0, r.rows1, r.oldGone), "handover.doubledone", p, o)
+					}
 				}
 			}
 		}
